@@ -301,6 +301,14 @@ def run_graph(pid, tier):
                 f"but names defined / by-value acyclic is {oracle['resolvable']}",
                 payload(case, obs), kf_class)
             continue
+        if (not obs["accepted"] and not crashed and obs.get("class") != "nonterm" and case["err"] == "nonterm"
+                and oracle["fieldsOnly"] and not oracle["resolvable"] and not oracle.get("kf")):
+            # the only thing wrong is a name used in fields (undefined, or a by-value cycle): the error has to be the one that
+            # lists the types that could not be resolved
+            res.violation(f"the build fails with {obs['outcome']}: {str(obs.get('msg'))[:100]!r}, which does not list the types that "
+                          f"could not be resolved ({sorted('::'.join(p) for p in oracle['unresolvable'])})",
+                          payload(case, obs), kf_class)
+            continue
         if not obs["accepted"] and obs.get("class") == "nonterm" and oracle["fieldsOnly"]:
             got = sorted(strip_case_prefix(obs.get("nonterm", [])))
             want = sorted("::".join(p) for p in oracle["unresolvable"])
